@@ -477,4 +477,23 @@ theorem rel_map_normEdge (d : Bool) (E : List (Nat × Nat)) (i j : Nat) :
   · have : normEdge true = id := by funext e; rfl
     rw [this, List.map_id]
 
+/-! ### the graph object the adjacency setter builds is in adjacency order -/
+
+/-- building the graph again from its own edge list changes nothing, order included -/
+theorem graphEdges_idem (d : Bool) (N : Nat) (c : List (Nat × Nat)) :
+    graphEdges d N (graphEdges d N c) = graphEdges d N c := by
+  unfold graphEdges
+  apply List.filter_congr
+  intro p hp
+  cases d
+  · simp only [Bool.false_eq_true, if_false]
+    by_cases hlt : p.1 < p.2
+    · have hsw : ¬ (swap p).1 < (swap p).2 := by simp only [swap]; omega
+      simp [List.mem_filter, hp, hlt, hsw]
+    · simp [hlt]
+  · simp only [if_true]
+    by_cases hne : p.1 = p.2
+    · simp [hne]
+    · simp [List.mem_filter, hp, hne]
+
 end Pyunicorn.Repr
